@@ -486,7 +486,7 @@ func genC04(out *caseWriter, seed uint64, n int, args []string) error {
 }
 
 // genC04x: exhaustive small space.  All journals (as multisets of directives: the input order
-// is irrelevant to knut, C04_order_irrelevant_partial / C05) with at most maxLen directives
+// is irrelevant to knut, C04_order_irrelevant) with at most maxLen directives
 // over 2 accounts (Assets:A, Income:I), 1 commodity, 3 days, amounts {0, 1, -1}.
 // args: maxLen shard nshards
 func genC04x(out *caseWriter, seed uint64, n int, args []string) error {
